@@ -303,6 +303,56 @@ func runC10(c *Ctx, n, t int, seed uint64) {
 			}
 		}
 	}
+	// (b5) the same cross-event replays later on: a message of one step re-posted under the name of a step
+	// the round reaches afterwards (first moment of every distinct state of the round on the node)
+	if n == 3 || c.Thorough() {
+		for v, nd := range w.Nodes {
+			for _, rd := range []string{ra, rb} {
+				seen := map[string]*Moment{}
+				var order []string
+				for _, m := range rec.Moments {
+					nd.Mem.Restore(m.Snaps[v])
+					st := NodeState(nd, rd)
+					if _, ok := seen[st]; !ok && st != "" {
+						seen[st] = m
+						order = append(order, st)
+					}
+				}
+				for _, g := range all {
+					if g.DkgRoundID != rd || exempt(g.Event) || g.Event == EvSigningStart || (g.RecipientAddr != "" && g.RecipientAddr != nd.Name) {
+						continue
+					}
+					for _, st := range order {
+						m := seen[st]
+						if int(g.Offset) >= m.BoardLen {
+							continue // not yet on the board at that moment
+						}
+						for _, ev := range allEvents {
+							if ev == g.Event {
+								continue
+							}
+							replay := g
+							replay.Event = ev
+							err, diff, pan := applyAt(w, m, v, replay)
+							c.Eval(1)
+							c.Distinct(fmt.Sprintf("cross-event-later|%s->%s|%s", g.Event, ev, st))
+							c.Add("cross_event_replays_in_later_states", 1)
+							if pan != nil {
+								c.Add("panics_seen_(judged_by_C18)", 1)
+								continue
+							}
+							if ev == "signature_reconstruction_failed" && err == nil && len(diff) == 0 {
+								continue
+							}
+							if err == nil || len(diff) > 0 {
+								c.Violate("C10/cross-event-replay-accepted:"+g.Event+"->"+ev, fmt.Sprintf("%s's genuine %s (offset %d) re-posted as %s was accepted=%v by %s in %s (changed %v)", g.SenderAddr, g.Event, g.Offset, ev, err == nil, nd.Name, st, diff), map[string]interface{}{"n": n, "t": t, "genuine_offset": g.Offset, "event": g.Event, "genuine_sender": g.SenderAddr, "node": nd.Name, "state": st, "as_event": ev})
+							}
+						}
+					}
+				}
+			}
+		}
+	}
 	c.Sample(map[string]interface{}{"n": n, "t": t, "board_len": len(all), "moments": len(rec.Moments), "pairs": len(done)})
 }
 
